@@ -447,6 +447,9 @@ func (Engine) Run(t *tape.Tape, o eng.Opts) *eng.Result {
 			// asked for, on the same host, it must be the slash-terminated form of that path - however
 			// the reference is spelled (absolute path, relative last element, percent-encoded).
 			okLoc := loc == want
+			if i := strings.IndexAny(loc, "?#"); i >= 0 && loc[:i] == want {
+				okLoc = true // the request's query string carried over (a raw % in the path keeps url.Parse from seeing this)
+			}
 			if u, err := url.Parse(loc); !okLoc && err == nil && loc != "" {
 				r := (&url.URL{Path: q.Path}).ResolveReference(u)
 				okLoc = r.Scheme == "" && r.Host == "" && strings.HasSuffix(r.Path, "/") && path.Clean(r.Path)+"/" == want
